@@ -123,8 +123,15 @@ def compare_records(prog, stdout, stats, viol, case):
                     viol.append({"key": "not-monotone-value", "msg": "buffer=%s %s: %s -> %s" % (hexs, path, val, cur[path]),
                                  "detail": {"emb": prog.files(), "buffer": hexs}})
         known_prefix[(pi, hexs)] = cur
-        if len(viol) > 40:
-            break
+        # never stop early: a flood of one (possibly known) kind of mismatch must not hide a different one further on
+        if len(viol) > 400:
+            seen_k = {}
+            kept = []
+            for v in viol:
+                seen_k[v["key"]] = seen_k.get(v["key"], 0) + 1
+                if seen_k[v["key"]] <= 3:
+                    kept.append(v)
+            viol[:] = kept
     stats["records"] = stats.get("records", 0) + n
     return len(outcomes)
 
